@@ -54,8 +54,9 @@ func buildWorld() {
 		e := LoadEd([]string{"ed1", "ed2", "ed3"}[i])
 		world[n] = &Party{Name: n, Kind: 'E', Recipient: e.Recipient(), Identity: e.Identity(), Ref: e.Ref}
 	}
-	for i, n := range []string{"R1", "R2", "R3"} {
-		r := LoadRSA([]string{"rsa1", "rsa2", "rsa3"}[i])
+	// R4 is a 2500-bit key: its modulus length is not a multiple of 8 bits
+	for i, n := range []string{"R1", "R2", "R3", "R4"} {
+		r := LoadRSA([]string{"rsa1", "rsa2", "rsa3", "rsa2500"}[i])
 		world[n] = &Party{Name: n, Kind: 'R', Recipient: r.Recipient(), Identity: r.Identity(), Ref: r.Ref}
 	}
 	for _, n := range []string{"S1", "S2"} {
@@ -76,7 +77,7 @@ func buildWorld() {
 		{Type: "!", Args: []string{"~", "}"}, Body: make([]byte, 49)}}}}
 }
 
-// P returns the named party: X1..X4, E1..E3, R1..R3, S1, S2, U0..U3.
+// P returns the named party: X1..X4, E1..E3, R1..R4, S1, S2, U0..U3.
 func P(name string) *Party {
 	worldOnce.Do(buildWorld)
 	p := world[name]
